@@ -126,6 +126,12 @@ fn panic_msg(e: Box<dyn std::any::Any + Send>) -> String {
     if e.is::<RngBudgetExceeded>() {
         return "sampler exceeded healthy-draw budget".into();
     }
+    if let Some(np) = e.downcast_ref::<NoProgress>() {
+        return format!(
+            "livelock: the code kept calling {} more than {} times in a row although the stream can make no progress",
+            np.0, NO_PROGRESS_LIMIT
+        );
+    }
     if let Some(s) = e.downcast_ref::<&str>() {
         return s.to_string();
     }
